@@ -1,5 +1,5 @@
 (** C04 - Verifiers are total on untrusted input and reject atomically. *)
-From Utreexo Require Import Model.Verify Spec.Term Proofs.VerifyBasics.
+From Utreexo Require Import Model.Verify Spec.Term Proofs.VerifyBasics Proofs.CalcTotal.
 Open Scope N_scope.
 
 (** "When the verifier-state update rejects its input it leaves the leaf count and every root
@@ -21,3 +21,59 @@ Theorem C04_repaired_rejects :
   calculateHashes T true 4 (Some [lf 0]) [7] [] = Err.
 Proof. exact D1_repaired_rejects. Qed.
 Print Assumptions C04_repaired_rejects.
+
+(** ** Totality of the repaired verifier core (Proofs/CalcTotal.v): for arbitrary untrusted input the
+    mirror of calculateHashes needs at most (k+1)*(rows+3) loop iterations (k targets), never runs out
+    of its fuel, and no entry point reports an index panic. *)
+Theorem C04_calc_no_out_of_fuel :
+  forall (H : Type) (HO : ops H) n hashes targets proof,
+    n <= 2 ^ 63 -> (forall t, In t targets -> t < 2 ^ 64) ->
+    calculateHashes HO true n hashes targets proof <> OutOfFuel.
+Proof. exact calc_no_out_of_fuel. Qed.
+Print Assumptions C04_calc_no_out_of_fuel.
+
+(** the same without the bound on the targets *)
+Theorem C04_calc_no_out_of_fuel_gen :
+  forall (H : Type) (HO : ops H) n hashes targets proof,
+    n <= 2 ^ 63 -> calculateHashes HO true n hashes targets proof <> OutOfFuel.
+Proof. exact calc_no_out_of_fuel_gen. Qed.
+Print Assumptions C04_calc_no_out_of_fuel_gen.
+
+(** [calculateHashes_i fuel] is [calculateHashes] with an iteration counter on the main loop,
+    run on any fuel ... *)
+Theorem C04_calc_instrumented_same :
+  forall (H : Type) (HO : ops H) n hashes targets proof,
+    fst (calculateHashes_i H HO (calc_fuel (length targets) (TreeRows n)) n hashes targets proof)
+    = calculateHashes HO true n hashes targets proof.
+Proof. exact calculateHashes_i_fst. Qed.
+Print Assumptions C04_calc_instrumented_same.
+
+(** ... and however large the fuel, the loop runs at most [k * (rows + 2) + 1] times, which is
+    below the model's fuel [(k + 1) * (rows + 3)] *)
+Theorem C04_calc_iterations_bound :
+  forall (H : Type) (HO : ops H) fuel n hashes targets proof,
+    n <= 2 ^ 63 ->
+    (snd (calculateHashes_i H HO fuel n hashes targets proof)
+     <= length targets * (N.to_nat (TreeRows n) + 2) + 1)%nat
+    /\ (snd (calculateHashes_i H HO fuel n hashes targets proof)
+        <= calc_fuel (length targets) (TreeRows n))%nat.
+Proof. exact calc_iterations_bound. Qed.
+Print Assumptions C04_calc_iterations_bound.
+
+Theorem C04_verify_no_panic :
+  forall (H : Type) (HO : ops H) s hashes targets proof,
+    Verify HO true s hashes targets proof <> Panic.
+Proof. exact Verify_no_panic. Qed.
+Print Assumptions C04_verify_no_panic.
+
+Theorem C04_pollard_verify_no_panic :
+  forall (H : Type) (HO : ops H) s hashes targets proof,
+    PollardVerify HO true s hashes targets proof <> Panic.
+Proof. exact PollardVerify_no_panic. Qed.
+Print Assumptions C04_pollard_verify_no_panic.
+
+Theorem C04_update_no_panic :
+  forall (H : Type) (HO : ops H) filler s dels adds ts pf,
+    snd (stump_update HO true filler s dels adds ts pf) <> Panic.
+Proof. exact stump_update_no_panic. Qed.
+Print Assumptions C04_update_no_panic.
